@@ -11,6 +11,7 @@ Section Shape.
 Variable R : Type.
 Variable g : grammar R.
 Variable inp0 : str.            (* the whole input: pair offsets point into it *)
+Variable Q : pair R -> Prop.    (* a property every recorded pair is known to have ([fun _ => True] for a raw run) *)
 Local Open Scope N_scope.
 
 Inductive gent : bool -> atomicity -> pexp R -> str -> list (pair R) -> Prop :=
@@ -22,6 +23,7 @@ Inductive gent : bool -> atomicity -> pexp R -> str -> list (pair R) -> Prop :=
 | T_Eoi sk a : gent sk a Eoi [] []
 | T_Call_rec sk a r s e kids :
     rule_records g r a = true ->
+    Q (Pair r s e kids) ->
     gent (body_sk g r) (body_atomicity g r a) (r_exp (g_rule g r)) (substr inp0 s e) kids ->
     gent sk a (Call r) (substr inp0 s e) [Pair r s e kids]
 | T_Call_sil sk a r t ps :
@@ -53,12 +55,29 @@ with tskip : bool -> atomicity -> str -> list (pair R) -> Prop :=
 Scheme gent_mind := Minimality for gent Sort Prop
   with treps_mind := Minimality for treps Sort Prop
   with tskip_mind := Minimality for tskip Sort Prop.
+Combined Scheme gent_mutind from gent_mind, treps_mind, tskip_mind.
 
 (** a pair whose children and text are what its rule's body can produce when called under [a] *)
 Definition okx (a : atomicity) (p : pair R) : Prop :=
   match p with
   | Pair r s e kids => gent (body_sk g r) (body_atomicity g r a) (r_exp (g_rule g r)) (substr inp0 s e) kids
   end.
+
+End Shape.
+
+(** every property [Q] of pairs, hereditarily *)
+Inductive allp {R : Type} (Q : pair R -> Prop) : pair R -> Prop :=
+| allp_intro r s e kids : Q (Pair r s e kids) -> Forall (allp Q) kids -> allp Q (Pair r s e kids).
+
+Section Sound.
+Variable R : Type.
+Variable g : grammar R.
+Variable inp0 : str.
+Local Open Scope N_scope.
+Notation T := (fun _ : pair R => True).
+Notation gent := (gent g inp0 T).
+Notation treps := (treps g inp0 T).
+Notation tskip := (tskip g inp0 T).
 
 Definition took (inp : str) (i : N) (t : str) (inp' : str) (i' : N) : Prop :=
   inp = t ++ inp' /\ i' = i + slen t.
@@ -139,7 +158,7 @@ Proof.
       destruct (rule_records g r a) eqn:Er.
       * destruct Ht as [Ht1 Ht2]. subst i'. pose proof (@at_off_substr _ _ _ _ Hat Ht1) as Hs.
         assert (G : gent sk a (Call r) (substr inp0 i (i + slen t)) [Pair r i (i + slen t) l]).
-        { apply T_Call_rec; [exact Er|rewrite Hs; exact Hg]. }
+        { apply T_Call_rec; [exact Er|exact I|rewrite Hs; exact Hg]. }
         rewrite Hs in G. exact G.
       * apply T_Call_sil; assumption.
     + dres H E1. dres H E2. dres H E3. inversion H; subst.
@@ -190,4 +209,49 @@ Proof.
   exists t. exact Hg.
 Qed.
 
-End Shape.
+
+(** a raw derivation whose pairs all have [Q] hereditarily is a [Q]-derivation *)
+Lemma gent_upgrade (Q : pair R -> Prop) :
+  (forall sk a e t ps, gent sk a e t ps -> Forall (allp Q) ps -> Shape.gent g inp0 Q sk a e t ps) /\
+  (forall sk a x t ps, treps sk a x t ps -> Forall (allp Q) ps -> Shape.treps g inp0 Q sk a x t ps) /\
+  (forall sk a t ps, tskip sk a t ps -> Forall (allp Q) ps -> Shape.tskip g inp0 Q sk a t ps).
+Proof.
+  apply (gent_mutind (g:=g) (inp0:=inp0) (Q:=T)
+           (fun sk a e t ps => Forall (allp Q) ps -> Shape.gent g inp0 Q sk a e t ps)
+           (fun sk a x t ps => Forall (allp Q) ps -> Shape.treps g inp0 Q sk a x t ps)
+           (fun sk a t ps => Forall (allp Q) ps -> Shape.tskip g inp0 Q sk a t ps));
+    intros; try (constructor; assumption);
+    repeat match goal with
+    | H : Forall _ (_ ++ _) |- _ => apply Forall_app in H; destruct H
+    end.
+  - (* recorded call *)
+    match goal with H : Forall _ [_] |- _ => inversion H as [|? ? Hp _]; subst; inversion Hp; subst end.
+    apply T_Call_rec; auto.
+  - apply T_Call_sil; auto.
+  - apply T_Seq; auto.
+  - apply T_Alt_l; auto.
+  - apply T_Alt_r; auto.
+  - apply T_Opt_s; auto.
+  - apply T_Star_c; auto.
+  - apply T_Plus; auto.
+  - apply TR_cons; auto.
+  - eapply TS_run; eauto.
+Qed.
+
+(** every pair of a raw derivation's forest is, hereditarily, a pair its rule can produce *)
+Lemma gent_allp_okx :
+  (forall sk a e t ps, gent sk a e t ps -> Forall (allp (fun q => exists a', okx g inp0 T a' q)) ps) /\
+  (forall sk a x t ps, treps sk a x t ps -> Forall (allp (fun q => exists a', okx g inp0 T a' q)) ps) /\
+  (forall sk a t ps, tskip sk a t ps -> Forall (allp (fun q => exists a', okx g inp0 T a' q)) ps).
+Proof.
+  apply (gent_mutind (g:=g) (inp0:=inp0) (Q:=T)
+           (fun sk a e t ps => Forall (allp (fun q => exists a', okx g inp0 T a' q)) ps)
+           (fun sk a x t ps => Forall (allp (fun q => exists a', okx g inp0 T a' q)) ps)
+           (fun sk a t ps => Forall (allp (fun q => exists a', okx g inp0 T a' q)) ps));
+    intros; try (constructor; fail); try assumption;
+    repeat (apply Forall_app; split); try assumption.
+  constructor; [|constructor]. constructor; [|assumption].
+  eexists. cbn [okx]. eassumption.
+Qed.
+
+End Sound.
